@@ -166,7 +166,9 @@ class CbmcResult:
 
 
 def goto_cc(sources, out, defines=(), includes=(), timeout=300):
-    cmd = ["goto-cc", "-o", out, "-I", REPO, "-D" + GUARD, "-D__CPROVER_VERIF__"]
+    # __NO_CTYPE: glibc's isdigit()/isalnum()/... macros expand to (*__ctype_b_loc())[c], which has no body under
+    # cbmc (character classification would be nondeterministic); without the macros cbmc's own models are used
+    cmd = ["goto-cc", "-o", out, "-I", REPO, "-D" + GUARD, "-D__CPROVER_VERIF__", "-D__NO_CTYPE"]
     for d in defines:
         cmd.append("-D" + d)
     for i in includes:
